@@ -60,7 +60,7 @@ pub fn generate(rng: &mut Rng, tier: Tier, emit: &mut dyn FnMut(String)) {
     }
 }
 
-fn gen_keys(seed: u64, k: usize) -> Vec<Vec<u8>> {
+pub fn gen_keys(seed: u64, k: usize) -> Vec<Vec<u8>> {
     let mut rng = Rng::new(seed ^ 0x6b65_7973);
     let mut keys: Vec<Vec<u8>> = Vec::new();
     while keys.len() < k {
